@@ -1,0 +1,14 @@
+//go:build !verif
+
+// Package verifhook provides observation points for the verification harness in /verif.
+// Without the `verif` build tag every function is an empty, inlinable no-op.
+package verifhook
+
+// Enabled reports whether the hooks are compiled in.
+const Enabled = false
+
+// Emit reports that the state change named kind has just happened.
+func Emit(kind string, kv ...any) {}
+
+// Gate is a scheduling point: the harness may park the calling goroutine here.
+func Gate(name string, kv ...any) {}
